@@ -2,6 +2,25 @@ from collections import defaultdict
 import networkx as nx
 from .read_cgsmiles import read_cgsmiles
 
+def split_bonding_descriptor(bonding_descriptor):
+    """
+    Split a bonding descriptor as stored on the nodes into the
+    descriptor itself and the bond order annotated on it. The
+    order is the last character, except for the aromatic order
+    which is stored as 1.5.
+
+    Parameters
+    ----------
+    bonding_descriptor: str
+
+    Return
+    ------
+    str, int or float
+    """
+    if bonding_descriptor.endswith('1.5'):
+        return bonding_descriptor[:-3], 1.5
+    return bonding_descriptor[:-1], int(bonding_descriptor[-1])
+
 def find_complementary_bonding_descriptor(bonding_descriptor, ellegible_descriptors=None):
     """
     Given a bonding descriptor find the complementary match.
@@ -22,7 +41,8 @@ def find_complementary_bonding_descriptor(bonding_descriptor, ellegible_descript
     compl = []
     if bonding_descriptor[0] == '$' and ellegible_descriptors:
         for descriptor in ellegible_descriptors:
-            if descriptor[0] == '$' and descriptor[-1] == bonding_descriptor[-1]:
+            if descriptor[0] == '$' and\
+               split_bonding_descriptor(descriptor)[1] == split_bonding_descriptor(bonding_descriptor)[1]:
                 compl.append(descriptor)
         return compl
 
